@@ -7,6 +7,7 @@
 #include <asl/Thread.h>
 #include <stdio.h>
 #include <stdlib.h>
+#include <string.h>
 #include <string>
 #include <unistd.h>
 using namespace asl;
@@ -20,7 +21,8 @@ struct Srv : public WebSocketServer {
 			if (m.length() < 0) { printf("REPRODUCED the library delivered a message of length %d\n", m.length()); fflush(stdout); _exit(1); }
 			if (g_hostile) { printf("OK (delivered length %d)\n", m.length()); fflush(stdout); _exit(0); }   // leave before the handler thread deletes itself (SocketServer tear-down is C14, not this property)
 			if (ws.closed() || m.length() <= 0) break;
-			ByteArray data = m; ws.send(data);
+			if (m.length() > 0 && (*m)[0] == 'S') { String t = m; ws.send(t); }          /* the application takes the message as text */
+			else { ByteArray data = m; ws.send(data); }
 		}
 	}
 };
@@ -72,6 +74,15 @@ int main(int argc, char** argv)
 		int lens[] = { 1, 2, 125, 126, 127, 1000, 32767, 32768, 40000, 65535, 65536, 70000, 3 };
 		for (int n : lens) if (echo_one(s, n, 1)) return 1;
 		for (int pieces : { 2, 3, 5 }) for (int n : { 10, 300, 70000 }) if (echo_one(s, n, pieces)) return 1;
+		{ // a text message containing U+0000, received by the application as a String
+		  const char txt[] = { 'S', 'a', 0, 'b', 'c', 0, 0, 'd' }; int n = sizeof(txt); byte key[4] = { 1, 2, 3, 4 }; ByteArray f; f << byte(0x81) << byte(0x80 | n); for (int i = 0; i < 4; i++) f << key[i]; for (int i = 0; i < n; i++) f << byte(txt[i] ^ key[i & 3]);
+		  s.write(f.data(), f.length()); if (!s.waitInput(5)) { printf("REPRODUCED no echo of the text message\n"); return 1; } byte h[2]; readAll(s, h, 2); int len = h[1] & 0x7f; ByteArray back(len); readAll(s, back.data(), len);
+		  if (len != n || memcmp(back.data(), txt, n) != 0) { printf("REPRODUCED a text message of %d bytes containing zero bytes reached the application as %d bytes\n", n, len); return 1; } }
+		{ // the same handshake with lower-case header names (HTTP header names are case-insensitive)
+		  Socket s2; if (s2.connect("127.0.0.1", port)) { s2.setBlocking(true);
+			s2 << String("GET / HTTP/1.1\r\nhost: localhost\r\nupgrade: websocket\r\nconnection: Upgrade\r\nsec-websocket-key: dGhlIHNhbXBsZSBub25jZQ==\r\nsec-websocket-version: 13\r\n\r\n");
+			bool ok = false, first = true; String status; for (int k = 0; k < 20; k++) { if (!s2.waitInput(5)) break; String line = s2.readLine(); if (first) { status = line; first = false; } if (line.contains("s3pPLMBiTxaQ9kYGzzhZRbK+xOo=")) ok = true; if (line == "\r" || line == "") break; }
+			if (!ok) { printf("REPRODUCED handshake with lower-case header names: %s, accept key not the RFC 6455 value\n", *status); return 1; } } }
 		printf("OK\n"); fflush(stdout); _exit(0);
 	}
 	return 2;
